@@ -173,8 +173,19 @@ class Scratch:
         self.path = None
         self._n = 0
 
+    _counter = 0
+
     def __enter__(self):
-        self.path = tempfile.mkdtemp(prefix=f"verif-{self.tag}-", dir=scratch_root())
+        # own naming (pid + counter): the OS entropy seam makes tempfile's random names collide across workers
+        while True:
+            Scratch._counter += 1
+            path = os.path.join(scratch_root(), f"verif-{self.tag}-{os.getpid()}-{Scratch._counter}")
+            try:
+                os.mkdir(path, 0o700)
+                break
+            except FileExistsError:
+                continue
+        self.path = path
         return self
 
     def __exit__(self, *exc):
